@@ -2,7 +2,11 @@ package main
 
 // Engine-level part of hC19: a scripted misbehaving TCP target, and the real provider + gun + engine against it.
 //
-//	eng <gun> <keepalive> <instances> <refused> <iters> <n> {step}*n
+//	eng <gun> <keepalive> <instances> <mode> <iters> <n> {step}*n       gun = http | scenario | http2
+//	  mode = 0 | 1 (nobody listens: connection refused) | 2 (http2 gun only: TLS target WITHOUT HTTP/2 = the documented fatal condition)
+//	  gun = http2: HTTP/2 TLS target, keep-alives disabled so that every request makes its own TLS handshake;
+//	  behaviours: status | tlsalert (this request's handshake is answered with a TLS alert) |
+//	  h2abort (stream reset before the headers) | h2trunc (body shorter than the declared Content-Length)
 //	step = <beh> <conn> <status> <bodyok> <body> <tok> <pp> <tmpl>
 //	  beh     shape of the misbehaviour (see respond)            conn/status/bodyok: the abstract response the
 //	  body    hex of the body bytes the server sends, or @<n>     generator claims for it (read by the model only)
@@ -18,10 +22,16 @@ package main
 import (
 	"bufio"
 	"context"
+	"crypto/tls"
+	"errors"
 	"fmt"
 	"io"
+	"log"
 	"net"
 	"net/http"
+	"net/http/httptest"
+	"os"
+	"runtime"
 	"sort"
 	"strconv"
 	"strings"
@@ -38,6 +48,7 @@ import (
 	coreimport "github.com/yandex/pandora/core/import"
 	"github.com/yandex/pandora/lib/monitoring"
 	"go.uber.org/zap"
+	"golang.org/x/net/http2"
 
 	"verifharness/internal/vh"
 )
@@ -197,11 +208,71 @@ func respond(c net.Conn, s step) bool {
 		w("zz\r\nhello\r\n0\r\n\r\n")
 		return false
 	case "stall": // nothing for longer than the gun's response-header-timeout, then close
-		time.Sleep(1500 * time.Millisecond)
+		time.Sleep(3 * time.Second)
 		return false
 	}
 	w(head(500, "", 0))
 	return false
+}
+
+// ---------------------------------------------------------------------------------------
+// HTTP/2 (or, mode 2, HTTP/1.1-only) TLS target for the http2 gun. Handshake k belongs to request k
+// (one instance, keep-alives disabled): a "tlsalert" step makes the server fail that handshake, which the
+// client sees as a TLS alert ("remote error: tls: internal error").
+
+func newH2Target(steps []step, withH2 bool) *httptest.Server {
+	var mu sync.Mutex
+	handshakes := 0
+	srv := httptest.NewUnstartedServer(http.HandlerFunc(func(w http.ResponseWriter, r *http.Request) {
+		idx := -1
+		if strings.HasPrefix(r.URL.Path, "/b/") {
+			seg, _, _ := strings.Cut(r.URL.Path[3:], "/")
+			idx, _ = strconv.Atoi(seg)
+		}
+		s := step{beh: "status", status: 200, body: []byte("ok")}
+		if idx >= 0 && idx < len(steps) {
+			s = steps[idx]
+		}
+		if s.tok != "" {
+			w.Header().Set("X-Token", s.tok)
+		}
+		switch s.beh {
+		case "h2abort":
+			panic(http.ErrAbortHandler)
+		case "h2trunc":
+			w.Header().Set("Content-Length", strconv.Itoa(len(s.body)+100))
+			w.WriteHeader(s.status)
+			_, _ = w.Write(s.body)
+			if f, ok := w.(http.Flusher); ok {
+				f.Flush()
+			}
+			panic(http.ErrAbortHandler)
+		default:
+			w.WriteHeader(s.status)
+			if s.status != 204 && s.status != 304 {
+				_, _ = w.Write(s.body)
+			}
+		}
+	}))
+	srv.Config.ErrorLog = log.New(io.Discard, "", 0)
+	if withH2 {
+		_ = http2.ConfigureServer(srv.Config, nil)
+		srv.TLS = srv.Config.TLSConfig
+	} else {
+		srv.TLS = &tls.Config{NextProtos: []string{"http/1.1"}}
+	}
+	srv.TLS.GetConfigForClient = func(*tls.ClientHelloInfo) (*tls.Config, error) {
+		mu.Lock()
+		k := handshakes
+		handshakes++
+		mu.Unlock()
+		if k < len(steps) && steps[k].beh == "tlsalert" {
+			return nil, errors.New("scripted handshake failure")
+		}
+		return nil, nil
+	}
+	srv.StartTLS()
+	return srv
 }
 
 // ---------------------------------------------------------------------------------------
@@ -294,12 +365,30 @@ func scenarioHCL(steps []step) string {
 	return b.String()
 }
 
+// runEngine runs the case; a run that does not finish within the guard is repeated once (after dumping the
+// goroutines to stderr) and reported as a hang only if it does not finish the second time either: the guard is a
+// wall-clock bound and the machine may be starved.
 func runEngine(t *tokens) string {
+	start := t.p
+	out := runEngineOnce(t)
+	if strings.HasPrefix(out, "run=hang") {
+		buf := make([]byte, 1<<20)
+		buf = buf[:runtime.Stack(buf, true)]
+		fmt.Fprintf(os.Stderr, "hC19: run did not finish within the guard, goroutines:\n%s\n", buf)
+		time.Sleep(2 * time.Second)
+		t.p = start
+		out = runEngineOnce(t)
+	}
+	return out
+}
+
+func runEngineOnce(t *tokens) string {
 	engOnce.Do(engSetup)
 	gun := t.next()
 	ka := t.next() == "1"
 	inst := t.num()
-	refused := t.next() == "1"
+	mode := t.next()
+	refused := mode == "1"
 	iters := t.num()
 	var steps []step
 	for n := t.num(); n > 0; n-- {
@@ -314,13 +403,24 @@ func runEngine(t *tokens) string {
 		s.tmpl = t.next()
 		steps = append(steps, s)
 	}
-	tg := newTarget()
-	tg.steps = steps
-	addr := tg.ln.Addr().String()
-	if refused {
-		_ = tg.ln.Close() // nobody listens on that port any more: connection refused
+	var addr string
+	if gun == "http2" {
+		srv := newH2Target(steps, mode != "2")
+		addr = srv.Listener.Addr().String()
+		if refused {
+			srv.Close()
+		} else {
+			defer srv.Close()
+		}
 	} else {
-		defer tg.ln.Close()
+		tg := newTarget()
+		tg.steps = steps
+		addr = tg.ln.Addr().String()
+		if refused {
+			_ = tg.ln.Close() // nobody listens on that port any more: connection refused
+		} else {
+			defer tg.ln.Close()
+		}
 	}
 	caseNo++
 	var ammo map[string]any
@@ -345,6 +445,9 @@ func runEngine(t *tokens) string {
 	if gun == "scenario" {
 		guntype = "http/scenario"
 	}
+	if gun == "http2" {
+		guntype = "http2"
+	}
 	pool := map[string]any{
 		"id":     "p",
 		"ammo":   ammo,
@@ -352,7 +455,7 @@ func runEngine(t *tokens) string {
 		"gun": map[string]any{
 			"type": guntype, "target": addr,
 			"disable-keep-alives":     !ka,
-			"response-header-timeout": "500ms",
+			"response-header-timeout": "1s",
 			"dial":                    map[string]any{"timeout": "1s"},
 		},
 		"rps-per-instance": false,
@@ -366,14 +469,14 @@ func runEngine(t *tokens) string {
 	ag := &recAggr{}
 	conf.Engine.Pools[0].Aggregator = ag
 	eng := engine.New(zap.NewNop(), metrics, conf.Engine)
-	ctx, cancel := context.WithTimeout(context.Background(), 30*time.Second)
+	ctx, cancel := context.WithTimeout(context.Background(), 45*time.Second)
 	done := make(chan error, 1)
 	go func() { done <- eng.Run(ctx) }()
 	var runErr error
 	hang := false
 	select {
 	case runErr = <-done:
-	case <-time.After(25 * time.Second):
+	case <-time.After(40 * time.Second):
 		hang = true
 	}
 	cancel()
